@@ -4,6 +4,7 @@ CONSTANTS
   Gens = {}
   TNSet = {}
   PostGens = {}
+  Gens3 = {}
   MaxDepth = 1
   MaxD = 1
 CHECK_DEADLOCK FALSE
